@@ -631,7 +631,6 @@ class ConfigInformation:
         self._raw_identifier = None
         """The identifier without taking into account pre-tasks"""
 
-        self._validated = False
         self._sealed = False
         self._meta = None
 
@@ -702,28 +701,36 @@ class ConfigInformation:
         return TagFinder()(self.pyobject)
 
     @staticmethod
-    def _validate_value(value):
+    def _validate_value(value, validated: Set[int]):
         """Validate the configurations held by a value, including those
         within lists and dictionaries"""
         if isinstance(value, Config):
-            value.__xpm__.validate()
+            value.__xpm__.validate(validated)
         elif isinstance(value, list):
             for el in value:
-                ConfigInformation._validate_value(el)
+                ConfigInformation._validate_value(el, validated)
         elif isinstance(value, dict):
             for el in value.values():
-                ConfigInformation._validate_value(el)
+                ConfigInformation._validate_value(el, validated)
 
-    def validate(self):
-        """Validate a value"""
-        if not self._validated:
-            self._validated = True
+    def validate(self, validated: Optional[Set[int]] = None):
+        """Validate a value
+
+        :param validated: the configurations already visited by this
+            validation (shared configurations and cycles); a failed
+            validation must not prevent further ones
+        """
+        if validated is None:
+            validated = set()
+
+        if id(self) not in validated:
+            validated.add(id(self))
 
             # Check each argument
             for k, argument in self.xpmtype.arguments.items():
                 value = self.values.get(k)
                 if value is not None:
-                    ConfigInformation._validate_value(value)
+                    ConfigInformation._validate_value(value, validated)
                 elif argument.required:
                     if not argument.generator:
                         raise ValueError(
@@ -733,11 +740,11 @@ class ConfigInformation:
 
             # Validate pre-tasks
             for pre_task in self.pre_tasks:
-                pre_task.__xpm__.validate()
+                pre_task.__xpm__.validate(validated)
 
             # Validate init tasks
             for init_task in self.init_tasks:
-                init_task.__xpm__.validate()
+                init_task.__xpm__.validate(validated)
 
             # Use __validate__ method
             if hasattr(self.pyobject, "__validate__"):
